@@ -166,7 +166,8 @@ theorem rgbToHsvMask_gray_saturation (g : ℝ) : (rgbToHsvMask ⟨g, g, g⟩).c1
   have e' : Scalar.eqv (max0 g) (max0 g) := by rw [eqv_iff]
   constructor
   · simp only [rgbToHsvMask, RealScalar.max_eq, RealScalar.min_eq, max_self, min_self, if_pos e]; norm_num
-  · simp only [rgbToHslMask, RealScalar.max_eq, RealScalar.min_eq, max_self, min_self, if_pos e']; norm_num
+  · -- `min.eq(&max) | divisor.eq(&T::zero())` (c404fc5): the first disjunct holds on a gray
+    simp only [rgbToHslMask, RealScalar.max_eq, RealScalar.min_eq, max_self, min_self, decide_eq_true e', Bool.true_or, if_true]; norm_num
 
 /-- **Hwb of a gray**: whiteness + blackness = 1 exactly (`Rgb → Hsv → Hwb`, the route of the crate) -/
 theorem rgbToHwb_gray (g : ℝ) :
